@@ -350,6 +350,7 @@ func (m *Machine) RunInit(pkg *ssa.Package) (err error) {
 	m.stubs = map[string]value{}
 	m.locks = map[*value]int{}
 	m.onceDone = map[*value]bool{}
+	m.pools = map[*value][]value{}
 	m.wgCount = map[*value]int{}
 	m.Push = func(Item) {}
 	saveSteps := m.MaxSteps
